@@ -1,5 +1,6 @@
 (* Props/C13.v — property theorems only. *)
-From GE Require Import Lib.Bytes Lib.Sha256 Model.Tx Model.Issuance Spec.Issuance Proofs.Issuance.
+From GE Require Import Lib.Bytes Lib.Sha256 Model.Tx Model.Issuance Spec.Issuance Proofs.Issuance Proofs.IssuanceJson.
+From Coq Require Import Sorting.Permutation.
 Open Scope N_scope.
 
 (* the three id functions are the Elements derivation, for every outpoint, iss_contract hash, entropy, flag *)
@@ -52,6 +53,17 @@ Theorem C13_contract_json_key_order_partial : forall c k,
   ser_json 3 (JObj (rev (contract_fields c))) = contract_json c.
 Proof. exact contract_json_key_order_partial. Qed.
 Print Assumptions C13_contract_json_key_order_partial.
+
+(* the full statement: every permutation of the six fields gives the same key-sorted JSON and the same hash *)
+Theorem C13_contract_json_key_order : forall c l,
+  Permutation l (contract_fields c) -> ser_json 3 (JObj l) = contract_json c.
+Proof. exact contract_json_key_order. Qed.
+Print Assumptions C13_contract_json_key_order.
+
+Theorem C13_contract_hash_key_order : forall c l,
+  Permutation l (contract_fields c) -> sha256 (ser_json 3 (JObj l)) = contract_hash c.
+Proof. exact contract_hash_key_order. Qed.
+Print Assumptions C13_contract_hash_key_order.
 
 (* psetv2 AddInIssuance: outputs pay the ids derived from the target input's outpoint; token flag = BlindedIssuance *)
 Theorem C13_v2_issuance_outputs_pay_derived_ids : forall p idx a p',
